@@ -259,9 +259,7 @@ class Check(common.Check):
         d = {}
         if io['nrt']['trace'] != mo['nrt']:
             d['nrt'] = {'impl': io['nrt']['trace'], 'model': mo['nrt']}
-        # the model wakes a task only when it is due under the tempo in force; a run showing the
-        # known early wake-up (D-C05-3, owner C08) is judged by the oracle only
-        if io['rt'] is not None and io['rt']['trace'] != mo['rt'] and not self.rt_early(io['rt']):
+        if io['rt'] is not None and io['rt']['trace'] != mo['rt']:
             d['rt'] = {'impl': io['rt']['trace'], 'model': mo['rt'], 'moves': io['rt']['moves']}
         return d or None
 
